@@ -16,6 +16,7 @@ func init() {
 		wtCandidateRevision(c, "C02.15")
 		closedByPacketListener(c, "C02.16")
 		announcedBeforeDispatch(c, "C02.17")
+		jsonpSelection(c, "C02.21")
 		deliveryOrderedWithClose(c, "C02.18")
 		v3BinaryPayloadCodec(c, "C02.19", true)
 		baseTransportEffects(c, "C02.11")
